@@ -15,6 +15,9 @@ mod kdbx;
 mod diff;
 mod hook;
 mod c09p;
+mod frame;
+mod xmlsurf;
+mod kdbx2;
 mod canon;
 
 use common::Args;
@@ -62,6 +65,7 @@ fn main() {
         "C19" => c19::run(&args),
         "C03" | "C07" | "C08" | "C09" | "C12" => kdbx::run(&args),
         "C09P" => c09p::run(&args),
+        "C01" | "C04" | "C05" | "C06" | "C20" => kdbx2::run(&args),
         "C13" | "C14" | "C15" | "C16" => merge::run(&args),
         p => { eprintln!("unknown property {}", p); std::process::exit(2); }
     }
